@@ -330,7 +330,12 @@ func TestC10(t *testing.T) {
 		"reports for the key is read as well): served directly after the Set, not served by a lookup which begins after Set-returned + ttl + 2%. " +
 		"jwt finalizer with signer key stores whose certificate expires 3s/8s/20s/90s after the key store was loaded: the validity of a token is the exp it states itself (the clock is moved past that one; " +
 		"a token taken from the cache must not be expired). Remaining lifetimes exactly at and 1s next to the 10s leeway of the authenticators (token / session expiry, JWK certificate), " +
-		"prepared for and executed at the begin of a full second (a case counts when its first execution lay within that second, up to 4 attempts); expires_in at and next to the 5s of client credentials.")
+		"prepared for and executed at the begin of a full second (a case counts when its first execution lay within that second, up to 4 attempts); expires_in at and next to the 5s of client credentials. " +
+		"HTTP responses with Cache-Control on several lines, none naming max-age, and Expires at / next to a Date which is ahead of or behind the cache's clock (lifetime = Expires - Date). " +
+		"HTTP cache through the metadata_endpoint of the jwt and oauth2_introspection authenticators: http_cache {absent (documented: 30m), enabled, enabled + default_ttl 0s / 30s / 1h} x header fields of the document " +
+		"{none, max-age, no-store, Expires, several lines with a skewed Date}, judged on the requests for the document itself. " +
+		"Generic authenticators of one catalogue sharing cache entries (same endpoint, cache_ttl) with different session_lifespan settings {none, leeway 10s, 1s, 30s}: the result of a session which is over " +
+		"(already when stored by the one knowing no lifespan, or after one common real pause of <=4.1s) is never accepted from the cache by one which knows its expiry.")
 	r.Assume("redis semantics are those of miniredis with heimdall's real rueidis based client (client side caching disabled as in the repository's tests)",
 		"virtual time only moves the cache clock: heimdall itself reads the wall clock, so after an advance only the hit/miss of the next lookup is judged",
 		"the age of a response is taken from its Age header only: that a Date lying in the past does not count against max-age / Expires-minus-Date is not judged (counted as an observation); a Date lying in the future must never extend the lifetime")
@@ -365,6 +370,7 @@ func TestC10(t *testing.T) {
 	waitBackends := e.backendProbes()
 	e.introspection()
 	e.generic()
+	e.sharedSessionCache()
 	e.jwtAuthenticator()
 	e.leewayBoundaries()
 	e.jwtFinalizer()
